@@ -54,11 +54,45 @@ def oracle(case, impl_lines, model_lines):
     return None
 
 
+INTERN_NOTE = ("INTERNED PART (second stage, Intern layer): the theorems are those of Props/C09.v / Props/C08.v "
+               "(C09_only_if: a slot is reused only when stale, LOW-durability and the revision queue is primed; "
+               "C08_handle_value / C08_readback: a current handle reads back the value it was interned for; the reuse "
+               "step bumps the generation and clears the memo table); this stage replays the hook-recorded "
+               "linearisation of every intern / maybe_changed_after of generated churn histories through the extracted "
+               "Intern model and checks, on the implementation's own records, that no handle stands for two values in "
+               "one revision, that field read-backs return the interned value, and that every real slot reuse was of a "
+               "stale LOW-durability value.")
+
+
 def run(ctx):
+    # stage 1: tracked structs (Structs layer)
     st.run_structs(ctx, ["churn", "structs"], n_quick=450, n_thorough=6000, oracle=oracle,
                    nontrivial_rule=lambda f: "slot_reused" in f and "generation_gt0_live" in f and "discard_memo" in f,
                    thm_note=open(__file__.replace("C07.py", "notes/C07.txt")).read())
+    structs_cov = dict(ctx.coverage)
+    structs_assumptions = list(ctx.assumptions)
+    # stage 2: interned values (Intern layer; same engine as C08/C09, aliasing + reuse oracles)
+    from checks import interncheck
+    ctx.coverage = {}
+    interncheck.run(ctx, INTERN_NOTE)
+    intern_cov = ctx.coverage
+    merged = dict(structs_cov)
+    for k in ("obligations", "discharged", "closed_under_global_context"):
+        merged[k] = structs_cov.get(k, 0)          # Props/C07.v is counted once (both stages report it)
+    merged["evaluations"] = structs_cov.get("evaluations", 0) + intern_cov.get("evaluations", 0)
+    merged["theorem_note"] = structs_cov.get("theorem_note", "") + "\n\n" + INTERN_NOTE
+    merged["trusted_base"] = list(structs_cov.get("trusted_base", [])) + [
+        t for t in intern_cov.get("trusted_base", []) if t not in structs_cov.get("trusted_base", [])]
+    merged["intern_stage"] = {k: intern_cov.get(k) for k in (
+        "evaluations", "records_replayed", "distinct_nontrivial", "traces_validated_against_impl",
+        "implementation_vs_model_disagreements", "oracle_disagreements", "distribution", "totals", "wall_s")}
+    ctx.coverage = merged
+    ctx.assumptions = structs_assumptions + [a for a in ctx.assumptions if a not in structs_assumptions]
+    ctx.write_evidence("proof")
 
 
 def replay(ctx, rp):
+    if isinstance(rp.get("case"), list):
+        from checks import interncheck
+        return interncheck.replay(ctx, rp)
     return st.replay(ctx, rp)
